@@ -1105,3 +1105,34 @@ func branchDominates(fl *Flow, in ssa.Instruction, pred func(Fact) bool) bool {
 func isCarriedProposerKey(k string) bool {
 	return strings.Contains(k, ".ProposerID(") || (strings.Contains(k, "hotstuffpb.Block).GetProposer(") && strings.Contains(k, "Proposal).GetBlock("))
 }
+
+// expandedKey returns the key of v with the results of helpers of fl.Fn's package that v is built
+// from replaced by the keys of what those helpers return (when that is a single expression in the
+// caller's terms): `rnd, seed := newViewRand(shared, view)` reads as rand.New(rand.NewSource(shared+view)).
+func expandedKey(fl *Flow, v ssa.Value, at ssa.Instruction) string {
+	k := fl.K.Key(v)
+	seen := map[ssa.Value]bool{}
+	var walk func(x ssa.Value, depth int)
+	walk = func(x ssa.Value, depth int) {
+		if x == nil || seen[x] || depth > 8 {
+			return
+		}
+		seen[x] = true
+		switch y := x.(type) {
+		case *ssa.Extract, *ssa.Call:
+			if hl := helperResultLeaves(fl, y, fl.At(at)); len(hl) == 1 && hl[0].Key != "" {
+				k = strings.ReplaceAll(k, fl.K.Key(y), hl[0].Key)
+				return
+			}
+		}
+		if in, ok := x.(ssa.Instruction); ok {
+			for _, op := range in.Operands(nil) {
+				if op != nil && *op != nil {
+					walk(*op, depth+1)
+				}
+			}
+		}
+	}
+	walk(v, 0)
+	return k
+}
